@@ -461,13 +461,27 @@ func (p *Path) rUnlock(addr *value) {
 // leakedLock: a mutex still held at the end of the harness by a goroutine that has returned (nobody can ever
 // release it: every later Lock blocks for ever).
 func (p *Path) leakedLock() string {
+	// a goroutine parked in Lock/RLock when nothing can run any more waits for ever
+	quiet := true
+	for _, t := range p.threads {
+		if t.state == stRunnable && !t.isMain && !t.abandoned {
+			quiet = false
+		}
+	}
+	if quiet {
+		for _, t := range p.threads {
+			if t.state == stBlocked && !t.abandoned && (t.blockWhy == "Lock" || t.blockWhy == "RLock") {
+				return "goroutine " + t.name + " is blocked for ever in " + t.blockWhy
+			}
+		}
+	}
 	for _, l := range p.locks {
 		if l.held && l.owner != nil && (l.owner.state == stDone || l.owner.isMain) && !l.owner.abandoned {
-			return "write lock taken at " + l.where + " by goroutine " + l.owner.name
+			return "left locked for ever by goroutine " + l.owner.name + ", which has returned (write lock taken at " + l.where + ")"
 		}
 		for t, n := range l.readersBy {
 			if n > 0 && (t.state == stDone || t.isMain) && !t.abandoned {
-				return "read lock held by goroutine " + t.name
+				return "read lock left held for ever by goroutine " + t.name + ", which has returned"
 			}
 		}
 	}
